@@ -323,6 +323,33 @@ def analyse_class(repo, rep, class_q, floors=None, prefix=''):
         if bad:
           break
       rep.analysed['paths'] += 1
+      if bad and f.name.startswith('_') and not f.name.startswith('__') and f.kind == 'method':
+        # a private step of a larger writer (fit -> _construct_analysis_data; _fit_pre_period_model): the memo may be reset by
+        # the caller after the step.  Accepted when every call site in the class is followed, on every path to the caller's
+        # exit, by a reset of the memo (directly or through another step that resets it on all its paths)
+        callers = []
+        for c_ in cf.funcs.values():
+          if c_ is f:
+            continue
+          gc_ = cf.cfg(c_)
+          sites_ = [n_ for n_ in gc_.nodes if n_.ast is not None and n_.kind in ('stmt', 'return', 'test')
+                    and any(isinstance(x_, ast.Call) and isinstance(x_.func, ast.Attribute) and x_.func.attr == f.name and isinstance(x_.func.value, ast.Name)
+                            and c_.params and x_.func.value.id == c_.params[0] for x_ in ast.walk(n_.ast if n_.kind != 'test' else n_.expr))]
+          if sites_:
+            callers.append((c_, gc_, sites_))
+        if callers:
+          compensated = True
+          for c_, gc_, sites_ in callers:
+            rn_ = _reset_nodes(cf, c_, memo_names).get(m, set())
+            for sn_ in sites_:
+              if sn_ in rn_:
+                continue
+              if gc_.path_avoiding(sn_, lambda n: n is gc_.exit, lambda n: n in rn_ and n is not sn_, no_exc) is not None:
+                compensated = False
+          if compensated:
+            rep.ok(R('R2/must-reset'), '%s stores %s; every caller (%s) resets %s after the call on all paths' % (f.qualname, written, ', '.join(c_.name for c_, _g, _s in callers), m),
+                   loc=f.loc())
+            continue
       if bad and len(f.params) <= 1 and f.kind in ('getter', 'method'):
         # a function without parameters cannot install new input: what it stores is derived from the state that is
         # already there (a cache kept in a form the memo recogniser does not know)
@@ -442,13 +469,42 @@ def r4_reads_do_not_mutate(repo, rep, class_q):
           return is_state_alias(e.args[0], node, depth - 1)
         if isinstance(e.func, ast.Attribute) and e.func.attr in ('reshape', 'ravel', 'view', 'squeeze', 'T', 'transpose'):
           return is_state_alias(e.func.value, node, depth - 1)
+        if isinstance(e.func, ast.Attribute) and e.func.attr in ('get', 'setdefault', 'pop', '__getitem__'):
+          return is_state_alias(e.func.value, node, depth - 1)      # an entry of a container held in the instance
         return False
       if isinstance(e, ast.Name):
         ds = rd.defs_at(node, e.id)
         for d in ds:
           if d.how in ('assign', 'unpack') and d.value is not None and is_state_alias(d.value, d.node, depth - 1):
             return True
+          if d.how in ('assign', 'unpack') and d.node is not None and stored_before(e.id, d.node, node):
+            return True
         return False
+      return False
+
+    def stored_before(name, def_node, use_node):
+      """Is the object bound to `name` at def_node put into the instance (`self.f = name`, `self.f[k] = name`, or as a
+      constructor / tuple component of such a value) at a statement that can precede use_node?"""
+      for st in g.nodes:
+        if st.kind != 'stmt' or not isinstance(st.ast, ast.Assign):
+          continue
+        into_state = False
+        for t in st.ast.targets:
+          b = t
+          while isinstance(b, (ast.Subscript, ast.Attribute)) and not (isinstance(b, ast.Attribute) and isinstance(b.value, ast.Name) and b.value.id == sn):
+            b = b.value
+          if isinstance(b, ast.Attribute) and isinstance(b.value, ast.Name) and b.value.id == sn:
+            into_state = True
+        if not into_state:
+          continue
+        v = st.ast.value
+        comps = [v] + (list(v.elts) if isinstance(v, (ast.Tuple, ast.List)) else [])
+        if not any(isinstance(c, ast.Name) and c.id == name for c in comps):
+          continue
+        if not any(d.node is def_node for d in rd.defs_at(st, name)):
+          continue
+        if st is not use_node and use_node in g.reachable(st, stop=lambda n: n is def_node):
+          return True
       return False
 
     for node in g.nodes:
